@@ -1128,7 +1128,7 @@ pub fn run(session: &Session, prop: &'static RefProp, rule: &str) -> i32 {
             let forms: Vec<String> = if prop.id == "C11" {
                 vec![
                     format!("{n} := (x: int) -> bool {{ return x > 1; }}; [1, 2, 3]~ ? {n} $+ + 1"),
-                    format!("{n} := (x: int) -> bool {{ return x > 1; }}; it := [1, 2, 3]~; y := it ? {n}; (y $+) + 1"),
+                    format!("{n} := (x: int) -> bool {{ return x > 1; }}; srcq := [1, 2, 3]~; yq := srcq ? {n}; (yq $+) + 1"),
                     format!("{n} := (x: int) -> int {{ return x + 1; }}; [1, 2]~ @ {n} $+ + 1"),
                     format!("{n} := [1, 2, 3]~; {n} $+"),
                     format!("{n} := (a: int, x: int) -> int {{ return a + x; }}; [1, 2, 3]~ $ 0 {n}"),
